@@ -802,3 +802,83 @@ def rule_cursor_copy(prog, res, la, rule="R-CURSOR-COPY"):
                          "%s copies the %s of the %s cursor into the %s cursor without copying its %s on the same path: the %s cursor now pairs a %s of one lap with the lap count of another (after a partial release the next map sees an impossible cursor and skips unread data)"
                          % (f.name, dd, sc, dc, other, dc, POS))
     return n
+
+
+def rule_full_guard(prog, res, la, rule="R-FULL-GUARD"):
+    """next_write may grant a region only when the ring is known not to be
+    exactly full against the slowest reader: every return that can be non-zero
+    is reached through the `head < tail` edge or through a false edge of the
+    ring-full test (tail == head  &&  writer lap == reader lap + 1)."""
+    f = prog.func("next_write")
+    res.touched(f)
+    al = la.aliases(f)
+    defs = {}
+    for b, i, s in f.all_stmts():
+        for lv, op, rhs, w in ir.writes_of(s):
+            if lv.get("k") == "var" and op == "=":
+                defs[lv["id"]] = rhs
+
+    def keyof(n):
+        n = ir.strip(n)
+        if isinstance(n, dict) and n.get("k") == "var" and n["id"] in defs:
+            n = ir.strip(defs[n["id"]])
+        if isinstance(n, dict) and n.get("k") in ("mem", "idx", "deref"):
+            return la.lvalue_key(f, n, al)
+        return None
+
+    def is_succ_test(c):
+        c = ir.strip(c)
+        if not (isinstance(c, dict) and c.get("k") == "bin" and c["op"] == "=="):
+            return False
+        for x, y in ((c["l"], c["r"]), (c["r"], c["l"])):
+            y0 = ir.strip(y)
+            if keyof(x) == ("channel", "cycle") and isinstance(y0, dict) and y0.get("k") == "bin" and \
+                    y0["op"] == "+" and ir.is_const(y0["r"], 1) and keyof(y0["l"]) == ("channel", "holds.cycles"):
+                return True
+        return False
+
+    def is_tail_eq_head(c):
+        c = ir.strip(c)
+        if not (isinstance(c, dict) and c.get("k") == "bin" and c["op"] == "=="):
+            return False
+        ks = {keyof(c["l"]), keyof(c["r"])}
+        return ks == {("channel", "holds.pos"), ("channel", "head")}
+
+    def is_head_lt_tail(c):
+        c = ir.strip(c)
+        if not (isinstance(c, dict) and c.get("k") == "bin" and c["op"] in ("<", ">")):
+            return False
+        l, r = (c["l"], c["r"]) if c["op"] == "<" else (c["r"], c["l"])
+        return keyof(l) == ("channel", "head") and keyof(r) == ("channel", "holds.pos")
+    full_blocks = set()
+    for b in f.blocks.values():
+        c = b.cond_node()
+        if c is not None and is_succ_test(c):
+            full_blocks.add(b.id)
+            for p in f.preds().get(b.id, []):
+                pc = f.blocks[p].cond_node()
+                if pc is not None and is_tail_eq_head(pc) and f.blocks[p].term == "and":
+                    full_blocks.add(p)
+    if not full_blocks:
+        raise AnalysisBroken("next_write: the ring-full test (tail == head && cycle == reader cycle + 1) was not found")
+
+    def accepted(cn, lab, blk):
+        if blk.id in full_blocks and lab == "false":
+            return True
+        if is_head_lt_tail(cn) and lab == "true":
+            return True
+        return False
+    n = 0
+    for b, i, s in f.all_stmts():
+        if s.get("k") != "ret" or ir.is_const(s.get("e"), 0):
+            continue
+        n += 1
+        dom, _ = paths.edge_dominated(f, (b.id, i), accepted)
+        inst = "next_write: grant at line %s only when the ring is not full" % s.get("line")
+        if dom:
+            res.oblige(rule, inst, True, "reached only through head < tail or a false edge of the ring-full test", f.loc(s))
+        else:
+            res.fail(rule, inst, "%s|next_write|grant" % rule, f.loc(s),
+                     "next_write can grant a region (return %s) on a path that never tested whether the ring is exactly full against the slowest reader: with head == tail one lap ahead the writer is handed the reader's unread (possibly mapped) bytes"
+                     % ir.render(s.get("e")))
+    return n
